@@ -275,6 +275,6 @@ func check4(t *testing.T, c Case4) harness.Verdict {
 	return v
 }
 
-var Weights = harness.Define(harness.Opts{Name: "weights", Rule: ruleWeights, Quick: 60, Thorough: 400, Crashy: true}, genCase4, check4)
+var Weights = harness.Define(harness.Opts{Name: "weights", Rule: ruleWeights, Quick: 80, Thorough: 1500, Crashy: true}, genCase4, check4)
 
 const ruleWeights = "ctpolicy group API (each case in a fresh -race child process, inside a synctest bubble): one LogsByGroup result shared by 1-3 concurrent GetSCTs callers and 1-3 goroutines issuing SetLogWeights / SetLogWeight / GetSubmissionSession at scripted instants (weights 1-1000, in a quarter of the cases also 0). Every case is non-trivial (concurrent use of shared groups)"
